@@ -180,10 +180,20 @@ func (av arrayValue) PropertyValue(iv Value) Value {
 func (mv mapValue) Contains(iv Value) bool {
 	mr := reflect.ValueOf(mv.value)
 	ir := reflect.ValueOf(iv.Interface())
-	if ir.IsValid() && mr.Type().Key() == ir.Type() {
-		return mr.MapIndex(ir).IsValid()
+	// (also for a map[any]T; an operand that cannot be hashed is no key)
+	if ir.IsValid() && ir.Type().AssignableTo(mr.Type().Key()) && ir.Type().Comparable() {
+		return mapHasKey(mr, ir)
 	}
 	return false
+}
+
+func mapHasKey(mr, key reflect.Value) (has bool) {
+	defer func() {
+		if recover() != nil { // a comparable type holding a value that is not (an array of slices, say)
+			has = false
+		}
+	}()
+	return mr.MapIndex(key).IsValid()
 }
 
 func (mv mapValue) IndexValue(iv Value) Value {
